@@ -46,6 +46,7 @@ def units(tier, seed):
     cent = [[-1.0, 0.0, 1.0], [-2.0, -1.0, 1.0, 2.0], [-5.0, 0.0, 5.0], [-3.0, 1.0, 2.0], [-1.0, -1.0, 2.0], [-2.0, -2.0, -1.0, 5.0], [0.5, -0.5, 1.5, -1.5, 0.0]]
     u.append([{"v": v, "off": 0.0, "sc": 1.0} for v in cent])  # training mean exactly zero
     u.append([{"invalid": True}])
+    u.append([{"design": True}])
     u.append([{"two-instances": True}])
     return u
 
@@ -256,7 +257,47 @@ def check_two(case, acc):
         acc.case(case, "ok", nontrivial=True)
 
 
+def check_design(case, acc):
+    """center/scale through design_matrices: the same affine map for a later frame, also after the frame was edited in place."""
+    import pandas as pd
+    from formulae import design_matrices
+
+    problems = []
+    x = np.array([1.0, 2.0, 5.0, 0.0, 2.0, 1.0])
+    df = pd.DataFrame({"y": np.arange(6.0), "x": x, "g": list("ababab")})
+
+    def center(v):  # a helper of the calling script with the name of a built-in transform: the built-in must still be used
+        return v - 1000.0
+
+    scale = center  # noqa: F841
+    for f in ("y ~ center(x)", "y ~ scale(x)", "y ~ standardize(x) + (center(x)|g)"):
+        acc.calls += 1
+        dm = design_matrices(f, df)
+        tr = np.asarray(dm.common.design_matrix, dtype=float)[:, 1]
+        m, s = x.mean(), x.std()
+        want = (x - m) if "center(x)" in f and "standardize" not in f else (x - m) / s
+        if not np.allclose(tr, want, rtol=1e-12, atol=1e-12):
+            problems.append(f"{f!r}: training column is not the centred / standardised x (a caller-defined function of that name was used?)")
+        nd = pd.DataFrame({"y": [0.0, 0.0], "x": [10.0, -3.0], "g": ["a", "b"]})
+        for step in range(3):
+            acc.calls += 1
+            got = np.asarray(dm.common.evaluate_new_data(nd).design_matrix, dtype=float)[:, 1]
+            xn = nd["x"].to_numpy(dtype=float)
+            want = (xn - m) if "center(x)" in f and "standardize" not in f else (xn - m) / s
+            if not np.allclose(got, want, rtol=1e-12, atol=1e-12):
+                problems.append(f"{f!r}: later frame x={xn.tolist()} (evaluation {step + 1} of the same frame object) mapped to {got.tolist()}, expected {want.tolist()}")
+                break
+            nd["x"] = nd["x"] * 2 + 1  # the caller edits its frame in place and evaluates it again
+    if problems:
+        acc.case(case, "MISMATCH")
+        acc.violation("center-scale", "design", case, "; ".join(problems[:3]))
+    else:
+        acc.case(case, "ok", nontrivial=True)
+
+
 def check_case(case, acc):
+    if case.get("design"):
+        return check_design(case, acc)
     if case.get("invalid"):
         return check_invalid(case, acc)
     if case.get("two-instances"):
